@@ -63,10 +63,10 @@ def run(chk: Check) -> None:
             lb: Dict[object, Set[str]] = {}
             for k in c.mro_classes():
                 if 'save_instance_state' in k.methods:
-                    for key, attrs in saved_bindings(ctx, k.methods['save_instance_state']).items():
+                    for key, attrs in saved_bindings(ctx, prog.view(k.methods['save_instance_state'])).items():
                         sb.setdefault(key, set()).update(attrs)
                 if 'load_instance_state' in k.methods:
-                    for key, attrs in loaded_bindings(ctx, k.methods['load_instance_state']).items():
+                    for key, attrs in loaded_bindings(ctx, prog.view(k.methods['load_instance_state'])).items():
                         lb.setdefault(key, set()).update(attrs)
             keys = [key for key, attrs in sb.items() if attr in attrs and attr in lb.get(key, set())]
             chk.ob('SYM-persisted-field', cq, bool(keys) or attr in auto,
@@ -83,12 +83,12 @@ def run(chk: Check) -> None:
     # (ii) key agreement per class: what is saved is loaded and vice versa
     n_keys = 0
     for c in classes:
-        sf, lf = c.methods.get('save_instance_state'), c.methods.get('load_instance_state')
+        sf, lf = prog.view(c.methods.get('save_instance_state')), prog.view(c.methods.get('load_instance_state'))
         if sf is None and lf is None:
             continue
         saved = dict(saved_keys_of(prog, sf)) if sf else {}
         loaded = dict(loaded_keys_of(prog, lf)) if lf else {}
-        rf = c.methods.get('recreate_from')  # a class may restore its keys in its own recreate_from (SavableFuture)
+        rf = prog.view(c.methods.get('recreate_from'))  # a class may restore its keys in its own recreate_from (SavableFuture)
         if rf is not None:
             for k, v in loaded_keys_of(prog, rf).items():
                 loaded.setdefault(k, []).extend(v)
@@ -111,7 +111,7 @@ def run(chk: Check) -> None:
     # (iii) load-context reads are supplied or guarded
     supplied = context_kwargs(prog)
     for c in classes:
-        lf = c.methods.get('load_instance_state')
+        lf = prog.view(c.methods.get('load_instance_state'))
         if lf is None:
             continue
         for attr, node, guarded in context_reads(lf):
@@ -133,7 +133,7 @@ def run(chk: Check) -> None:
     n_sup = 0
     for c in classes:
         for name in ('save_instance_state', 'load_instance_state'):
-            f = c.methods.get(name)
+            f = prog.view(c.methods.get(name))
             if f is None:
                 continue
             n_sup += 1
